@@ -145,6 +145,9 @@ class ActionContext(abc.ABC):
         if self.location_action.condition is None or len(self.location_action.condition.strip()) == 0:
             return True
         result = self.trigger_context.evaluate_expression(self.location_action.condition)
+        if isinstance(result, BaseException):
+            # the condition could not be evaluated (the error is returned as the result), so we cannot trigger
+            return False
         return str2bool(str(result))
 
 
